@@ -173,7 +173,7 @@ POLY_FUNCS = ["derivative", "gradient", "hessian", "poly_divmod", "poly_divide",
               "set_dimensions", "align_polynomials", "align_exponents", "align_indeterminants",
               "align_shape", "call", "equal", "not_equal", "str", "pickle", "aspolynomial", "clean",
               "boolpoly", "boolpoly", "astype_ops", "where_kw", "where_kw", "sequence",
-              "numeric_args", "numeric_args", "copyto_poly", "foreign_arrays"]
+              "numeric_args", "numeric_args", "copyto_poly", "foreign_arrays", "print_small"]
 
 
 class ArgumentMutated(Exception):
@@ -381,7 +381,39 @@ def call_polyfunc(numpoly, name, a, b):
             raise ArgumentMutated(f"numeric argument modified (transpose, raising): now {bad.tolist()}")
         return out
     if name == "clean":
-        return numpoly.clean_attributes(a), numpoly.clean_attributes(a, retain_names=False)
+        # an operand that carries a name none of its terms uses, under every flag combination
+        # (as keyword arguments and as global options)
+        wide = numpoly.set_dimensions(a, len(a.names) + 1)
+        out = [numpoly.clean_attributes(a), numpoly.clean_attributes(a, retain_names=False)]
+        for target in (a, wide):
+            before = snapshot(target)
+            for rc in (True, False):
+                for rn in (True, False):
+                    out.append(numpoly.clean_attributes(target, retain_coefficients=rc, retain_names=rn))
+                    with numpoly.global_options(retain_coefficients=rc, retain_names=rn):
+                        out.append(numpoly.clean_attributes(target))
+                        out.append(numpoly.polynomial(target))
+                    if changed(before, snapshot(target)):
+                        raise ArgumentMutated(
+                            f"clean_attributes(retain_coefficients={rc}, retain_names={rn}) modified "
+                            f"its argument: {changed(before, snapshot(target))}")
+        return out
+    if name == "print_small":
+        # printing with suppress_small / numpy's suppress option, on scalars with tiny coefficients
+        x = numpoly.symbols(a.names[0])
+        out = []
+        for tiny in (3e-7 * x ** 2 + 2.5 * x + 1e-12, numpoly.polynomial([1e-9 * x + 1.0, 4e-10]),
+                     numpoly.polynomial(2e-11)):
+            before = snapshot(tiny)
+            out.append(numpoly.array_str(tiny, suppress_small=True))
+            out.append(numpoly.array_repr(tiny, suppress_small=True, precision=3))
+            out.append(numpy.array_str(tiny, suppress_small=True))
+            with numpy.printoptions(suppress=True, precision=4):
+                out.append(str(tiny))
+                out.append(repr(tiny))
+            if changed(before, snapshot(tiny)):
+                raise ArgumentMutated(f"printing modified the polynomial: now {tiny!r:.100}")
+        return out
     raise ValueError(name)
 
 
